@@ -142,6 +142,13 @@ def events_for_case(o, cid, g, args, ids, axes_per_arg=2):
              "thr": [list(t) for t in a["thr"]], "nb": a["nb"]}
         for r in range(axes_per_arg):
             roc_event(ev, s, o, a, AXES[(cid + j + 3 * r) % 8], g)
+    # history: another configuration is assigned to the (already queried) object
+    o2 = sd.set_config_event(ev, s, o, g, h=1, k=cid)
+    if o2 is not None:
+        for j, a in enumerate(args[: 3 if axes_per_arg == 1 else len(args)]):
+            a = {"fnr": [list(q) for q in a["fnr"]], "fpr": [list(q) for q in a["fpr"]],
+                 "thr": [list(t) for t in a["thr"]], "nb": a["nb"]}
+            roc_event(ev, s, o2, a, AXES[(cid + j) % 8], g)
     e = ev("roc_bad_axis", h=1)
     try:
         roc(s, x_axis="auc")
